@@ -1133,7 +1133,12 @@ class Interp:
             try:
                 import operator
                 f = {ast.Add: operator.add, ast.Sub: operator.sub, ast.Mult: operator.mul, ast.Mod: operator.mod, ast.FloorDiv: operator.floordiv,
-                     ast.BitOr: operator.or_, ast.BitAnd: operator.and_, ast.LShift: operator.lshift, ast.RShift: operator.rshift}.get(type(op))
+                     ast.BitOr: operator.or_, ast.BitAnd: operator.and_, ast.LShift: operator.lshift, ast.RShift: operator.rshift,
+                     ast.Div: operator.truediv, ast.BitXor: operator.xor, ast.Pow: operator.pow}.get(type(op))
+                if isinstance(op, ast.Pow) and not (isinstance(r[1], int) and isinstance(l[1], (int, float)) and abs(r[1]) <= 64 and abs(l[1]) <= 1 << 64):
+                    f = None
+                if isinstance(op, ast.LShift) and not (isinstance(r[1], int) and 0 <= r[1] <= 4096):
+                    f = None
                 if f is not None:
                     return ("c", f(l[1], r[1]))
             except Exception:
@@ -1291,6 +1296,13 @@ class Interp:
             return b[1]
         if b[0] == "c" and b[1] is None:
             raise _Raise(("ext", "TypeError", []), "TypeError: 'NoneType' object is not subscriptable")
+        if b[0] == "fn" and k[0] == "c" and isinstance(k[1], int) and k[1] >= 0:
+            # a known prefix: (b'\x00' + X)[0], through bytes / bytearray conversions
+            t = b
+            while t[0] == "fn" and t[1] in ("bytes", "bytearray") and len(t[2]) == 1:
+                t = t[2][0]
+            if t[0] == "fn" and t[1] == "Add" and len(t[2]) == 2 and t[2][0][0] == "c" and isinstance(t[2][0][1], (bytes, bytearray)) and k[1] < len(t[2][0][1]):
+                return ("c", t[2][0][1][k[1]])
         return ("fn", "item", [b, k])
 
     # ------------------------------------------------------------------ nodes
@@ -1639,6 +1651,32 @@ class Interp:
                     self.class_attrs[key] = ("obj", o)
             if key in self.class_attrs:
                 return self.class_attrs[key]
+        if isinstance(ce, (ast.Call, ast.Dict, ast.DictComp, ast.ListComp, ast.SetComp, ast.BinOp, ast.Subscript, ast.Tuple, ast.List)) \
+                and not any(isinstance(x, (ast.Lambda, ast.Yield, ast.Await, ast.NamedExpr)) for x in ast.walk(ce)):
+            # a table computed in the class body (dict(... for ... in enumerate("0123456789ABCDEF")), A + B, dict(zip(..))):
+            # the expression is interpreted once, other class-level names it mentions resolved the same way; one shared object
+            key = (kc.qname, "@body", id(ce))
+            if key not in self.class_attrs:
+                self.class_attrs[key] = ("fn", "const", [])          # guards against self-reference
+                env = {"@module": kc.module, "@owner": None}
+                bound = {n_.id for x in ast.walk(ce) if isinstance(x, ast.comprehension) for n_ in ast.walk(x.target) if isinstance(n_, ast.Name)}
+                ok = True
+                for n_ in {x.id for x in ast.walk(ce) if isinstance(x, ast.Name) and isinstance(x.ctx, ast.Load)} - bound:
+                    if n_ in kc.consts and kc.consts[n_] is not ce:
+                        v_ = self.class_const_value(kc, c, kc.consts[n_])
+                        if v_ == ("fn", "const", []):
+                            ok = False
+                        env[n_] = v_
+                    elif n_ in kc.methods:
+                        env[n_] = ("clsmethod", kc, n_)
+                if ok:
+                    try:
+                        v_ = self.expr(ce, env, 1)
+                        if v_[0] in ("list", "dict", "c") and not (v_[0] != "c" and len(v_) > 2 and v_[2]):
+                            self.class_attrs[key] = v_
+                    except (NeedAtom, _Raise, Budget, DomainGrew):
+                        pass
+            return self.class_attrs[key]
         return ("fn", "const", [])
 
     # ------------------------------------------------------------------ calls
@@ -1911,7 +1949,7 @@ class Interp:
             return self.construct(fv[1], args, kwargs, env, depth, e)
         if k == "obj" and fv[1].id in self.models:
             return self.models[fv[1].id].apply(self, fv, args, kwargs, env, depth)
-        if k == "fn" and fv[1].startswith(".") and len(fv[2]) == 1 and fv[2][0][0] == "ext" and not fv[2][0][1].startswith("module "):
+        if k == "fn" and fv[1].startswith(".") and len(fv[2]) == 1 and ((fv[2][0][0] == "ext" and not fv[2][0][1].startswith("module ")) or (fv[2][0][0] == "fn" and not fv[2][0][1].startswith("."))):
             # an attribute of an opaque object fetched first and called later (`f = self.manager.decrypt_msg; f(...)`):
             # the same as calling the method
             return self.method_call(fv[2][0], fv[1][1:], args, kwargs, env, depth, e)
@@ -2137,6 +2175,10 @@ class Interp:
                 # a class of a library module is instantiated (threading.Lock(), Queue.Queue()): a fresh opaque object
                 # whose method calls are recorded
                 return ("ext", name + "()", list(args) + list(kwargs.values()))
+        if k == "fn" and not recv[1].startswith("."):
+            # a method of the opaque result of a library call (zlib.decompressobj().decompress(...)): recorded like the
+            # calls on opaque objects, the receiver being that result
+            self.emit("CALL", recv[1].rstrip("()") + "()." + name, list(args), recv)
         h = self.hooks.get("anymethod:" + name)
         if h is not None:
             # a method of a value the interpreter knows nothing about (the result of a library call): rules may observe it
